@@ -240,7 +240,7 @@ pub fn check(s: &'static dyn Proto, c: &Case, st: &mut Stats, _k: &KnownFindings
 
 pub const BUDGET: Budget = Budget {
     quick: (400, 160, 60),
-    thorough: (3000, 900, 300),
+    thorough: (10000, 3000, 1000),
     shrink: 60,
 };
 
